@@ -765,7 +765,9 @@ def run_check(pid, tier, seed):
     crashes = [c for c in crashes if not c['harness'].get('hang')]
     if hangs and pid != 'C06':
         raise ToolError('the harness timed out in %s (reported as non-termination by the C06 check)' % [c['variant'] for c in hangs])
-    if pid in ('C01', 'C03', 'C07', 'C19') or (pid == 'C06' and hangs):
+    # a crash (signal / abort) of the real code in any stage that decides this property is a violation of it:
+    # the behaviour the property describes did not happen, and memory safety (C01 / C03) is gone
+    if True:
         for c in (hangs if pid == 'C06' else crashes):
             path = os.path.join(REPLAYS, '%s-crash-%s.json' % (pid, hashlib.sha256(json.dumps(c['params'], sort_keys=True).encode()).hexdigest()[:10]))
             os.makedirs(REPLAYS, exist_ok=True)
@@ -774,8 +776,6 @@ def run_check(pid, tier, seed):
             out_lines.append('VIOLATION property=%s replay=%s' % (pid, path))
             out_lines.append('  the real code crashed under the harness: rc=%s %s' % (c['harness'].get('returncode'), c['harness'].get('stderr', '')[-300:]))
             nviol += 1
-    elif crashes:
-        log('note: harness crashed in', [c['variant'] for c in crashes], '(reported by C01/C03/C07)')
     # evidence
     ev = P.evidence(pid, tier, seed, plan, engines, confs, nviol, nknown, time.time() - t0)
     os.makedirs(os.path.join(VERIF, 'evidence'), exist_ok=True)
